@@ -163,6 +163,17 @@ partial def monitorLoop (h : IO.FS.Stream) (out : IO.FS.Stream) : IO Unit := do
           pre := some s1
           -- a restart ends whatever was in flight: the cadence observer forgets the batch it was tracking
           if g = .restart && r = "R ok" then
+            -- the restarted chain must satisfy the state invariants and hold the same records
+            -- (C19.restart_succeeds_and_keeps_invariants, C19.restart_gives_back_the_same_records)
+            for (name, vs) in [("escrowBacked", Mon.escrowBacked s1), ("depositBacked", Mon.depositBacked s1),
+                               ("ownerEarnings", Mon.ownerEarnings s1), ("minDep", Mon.minDep s1), ("indexes", Mon.indexes s1),
+                               ("queues", Mon.queues s1), ("requests", Mon.requests s1)] do
+              for v in vs do
+                out.putStrLn s!"V {n} {name} {v}"
+                viol := viol + 1
+            for (name, v) in Mon.restartKeeps s0 s1 do
+              out.putStrLn s!"V {n} {name} {v}"
+              viol := viol + 1
             ghost := ghost.map (fun e => (e.1, { e.2 with lastStart := none, lastExpiry := none, clean := false, restarted := true }))
         | _, _, _ => out.putStrLn s!"P {n} genesis op before genesis"; viol := viol + 1
       else if opl.startsWith "modcall " || opl.startsWith "modbind " then
